@@ -102,6 +102,14 @@ class Tag(HostModel):
             return have is None
         if isinstance(want, (list, tuple, set)):
             return have in want
+        if hasattr(want, "pattern") and hasattr(want, "flags"):
+            # a compiled pattern: bs4 SEARCHES it in the value (in each value of a multi-valued attribute)
+            if have is None:
+                return False
+            vals = have if isinstance(have, list) else [have]
+            return any(isinstance(v, str) and re.search(want.pattern, v, int(want.flags or 0)) is not None for v in vals)
+        if not isinstance(want, (str, bytes, int, float)):
+            raise ModelError(f"a filter of type {type(want).__name__} is outside the model")
         return have == want
 
     def _matches(self, name, attrs):
